@@ -404,6 +404,7 @@ fn eq(a: &Option<HitObject>, b: &Option<HitObject>) -> bool {
                 && match (&a.kind, &b.kind) {
                     (HitObjectKind::Slider(x), HitObjectKind::Slider(y)) => {
                         x.path.expected_dist().map(f64::to_bits) == y.path.expected_dist().map(f64::to_bits)
+                            && super::gen::same_control_points(x.path.control_points(), y.path.control_points())
                     }
                     _ => true,
                 }
@@ -423,7 +424,7 @@ fn classify(got: &Option<HitObject>, want: &Option<HitObject>) -> &'static str {
             } else {
                 match (&g.kind, &w.kind) {
                     (HitObjectKind::Slider(x), HitObjectKind::Slider(y)) => {
-                        if x.path.control_points() != y.path.control_points() {
+                        if !super::gen::same_control_points(x.path.control_points(), y.path.control_points()) {
                             "path-control-points"
                         } else if x.node_samples != y.node_samples {
                             "node-samples"
